@@ -71,6 +71,10 @@ type Result struct {
 	Digest     uint64 // canonical end-of-run digest (distinctness measure)
 	SimNanos   int64  // simulated time covered
 	Steps      int
+	// Ambiguous: from some step on, what the code under test does legitimately depends on a choice the simulator
+	// does not own (Go map iteration order) and the oracle accepts every outcome; the determinism self-test
+	// compares such a run only up to that step.
+	Ambiguous bool
 }
 
 // Ctx collects reach statistics during a run. A nil *Ctx is valid and ignores
